@@ -723,6 +723,21 @@ func (x *Exec) enterBlock(p *Path, b *ssa.BasicBlock, from *ssa.BasicBlock, k *C
 				}
 				x.oblige(p, fmt.Sprintf("loop%d:preserve", l.Ord), c.Label, s, c.Props, c.Src)
 			}
+			// facts about every completed iteration: calls / callarg / callres range over the calls this iteration made
+			if len(lc.Iteration) > 0 {
+				ictx := *ctx
+				if base := fr.loopEvents[b]; base <= len(p.events) {
+					ictx.events = p.events[base:]
+				}
+				for _, c := range lc.Iteration {
+					s, err := ictx.EvalBool(c.E)
+					if err != nil {
+						x.errorf("%s:%d: iteration: %v", c.File, c.Line, err)
+						continue
+					}
+					x.oblige(p, fmt.Sprintf("loop%d:iteration", l.Ord), c.Label, s, c.Props, c.Src)
+				}
+			}
 			if len(lc.Decreases) > 0 {
 				old := fr.loopMeas[b]
 				var news []string
